@@ -215,7 +215,7 @@ CHECKS = {
              "configuration sequences on one thread and gates on noiseless constants are part of the scenarios. 'Every order the API allows' is the TLA+ machine Life (6 objects, 3 blobs, the collector; guards = what must be alive): TLC checks NoDangling/DeadIsEmpty/NoStuck for all behaviours up to 9 (thorough: 11) calls and for both "
              "parameter kinds, samples ~20 (thorough: ~250) long behaviours, and every one is replayed by h_life; Trace_Life accepts a replay only if each step is an enabled Life action, each decryption returns Life's plaintext, gate outputs are one function of (key, gate, inputs) across generated and re-imported key objects and across runs, "
              "key exports are byte-identical, and the windows are clean. A third pass runs the small configurations, the sequences and a polynomial-routine scenario (monomial products at exponents 0, 1, N-1, N, N+1, 2N-1, Karatsuba, naive and FFT products) with every 1-64 KiB block ending on an inaccessible page."
-             " The four-phase object API of all seventeen structure types (alloc / init / destroy / free, new / delete, single and array forms: 204 functions) is the slot machine ObjLife.tla; TLC-generated call sequences run under the ledger and Trace_ObjLife holds the per-call readings to footprint rules (alloc one block linear in n; free = -alloc; destroy = -init; new = alloc + init; delete = -new; function of (type, n)). Life replays assign every step an executor (the run's thread or a one-step helper thread) and every export / import a transport (std::iostream or FILE*). Thread create / exit histories x object lifetimes: a Lagrange polynomial created by a thread that has exited and then used by another (probe 1) and the concurrent first use (probe 2) are decided by identity in Trace_Threads (PolyNew / PolyUse / PShared); Threads.tla keeps the pinned design (PolyProc = creator, violates PolyProcAlive: defect D8) and the repaired one.",
+             " The four-phase object API of all seventeen structure types (alloc / init / destroy / free, new / delete, single and array forms: 204 functions) is the slot machine ObjLife.tla; TLC-generated call sequences run under the ledger and Trace_ObjLife books the per-call readings on the slot and holds the account to conservation (an empty slot holds nothing; raw memory holds the same every time, so init / destroy cycles do not grow; nothing damaged or freed twice; nothing alive at the end). Life replays assign every step an executor (the run's thread or a one-step helper thread) and every export / import a transport (std::iostream or FILE*). Thread create / exit histories x object lifetimes: a Lagrange polynomial created by a thread that has exited and then used by another (probe 1) and the concurrent first use (probe 2) are decided by identity in Trace_Threads (PolyNew / PolyUse / PShared); Threads.tla keeps the pinned design (PolyProc = creator, violates PolyProcAlive: defect D8) and the repaired one.",
         note="PARTIAL: decides heap out-of-bounds writes within 64 bytes of a block, leaks, double frees, uses of uninitialised/freed heap memory that change a result or an export, and - in a third pass where every block of 1 to 64 KiB ends on an inaccessible page - any access (reads included) past the end of a coefficient or sample array. NOT decided: out-of-bounds reads before a block or past the end of smaller blocks, stack accesses, accesses far outside a block, "
              "anything inside hand-written assembly that stays in mapped memory. The ASan/UBSan/Valgrind configurations named by the property are a different technique and are not run. Found and repaired through this family of checks: D2, D3, D4, D8 (a Lagrange polynomial used after its creating thread exited read that thread's destroyed FFT processor; decided by identity in Trace_Threads!PolyUse; fix 0f4e6fe).",
         design="§6 C16, §7"),
